@@ -1,6 +1,6 @@
 (** C12 — capture filters.  Property theorems only; proofs live in Proofs/. *)
 From Coq Require Import List ZArith Bool.
-From TR Require Import Lib.Bytes Bpf.Vm Spec.C12 Generated.BpfProgs Proofs.C12Exact Wire.Decode Drv.Drivers Run.Drv.
+From TR Require Import Lib.Bytes Bpf.Vm Spec.C12 Generated.BpfProgs Proofs.C12Exact Wire.Decode Drv.Drivers Run.Drv Drv.Handshake Proofs.Linking.
 Import ListNotations.
 Open Scope Z_scope.
 
@@ -30,7 +30,7 @@ Theorem C12_programs_in_subset : forall s d sp dp,
 Proof. intros. rewrite decode_static_ok, decode_tcp4_ok. reflexivity. Qed.
 Print Assumptions C12_programs_in_subset.
 
-(** Linking property "the filter accepts every frame the matcher turns into a hop": the full statement is
+(** Linking property "the filter accepts every frame the matcher turns into a hop" (see also the restricted statement PROVED at the end of this file): the full statement is
       forall c st frame now t a r d, recv c st frame now = Hop t a r d ->
         forall p, installed_filter c = Some p -> accepts p (ether frame) = true
     It is FALSE of the faithful model, and of the code (known finding, DESIGN.md section 8 #10): an ICMPv6
@@ -48,3 +48,23 @@ Theorem C12_filter_complete_refuted :
   /\ (exists p, installed_filter c12_witness_cfg = Some p /\ accepts p (ether c12_witness_frame) = false).
 Proof. split; [vm_compute; reflexivity|]. eexists. split; [reflexivity|]. vm_compute. reflexivity. Qed.
 Print Assumptions C12_filter_complete_refuted.
+
+(** the linking property PROVED for every variant, every driver state and EVERY frame except the one shape of the known finding (IPv6 with a hop-by-hop header first): whatever the matcher turns into a hop, the capture program the entry point installs (regenerated from the source on this run) accepts *)
+Theorem C12_filter_accepts_every_hop c st b now t a r d p :
+  addrs_ok c ->
+  recv c st b now = Hop t a r d ->
+  v6_hop_by_hop b = false ->
+  installed_filter c = Some p ->
+  accepts p (ether b) = true.
+Proof. exact (@filter_accepts_every_hop c st b now t a r d p). Qed.
+Print Assumptions C12_filter_accepts_every_hop.
+
+(** and during the SACK handshake: every segment the handshake reader reacts to (SYN-ACK of the dialled connection, with or without SACK-permitted) passes the SYN-ACK program *)
+Theorem C12_synack_filter_accepts_every_handshake_segment c b v :
+  length (c_target c) = 4%nat ->
+  frame_parse b = PView v ->
+  handle_handshake c v <> HIgnore ->
+  accepts (prog_of raw_synack) (ether b) = true.
+Proof. exact (@linking_synack c b v). Qed.
+Print Assumptions C12_synack_filter_accepts_every_handshake_segment.
+
